@@ -76,7 +76,12 @@ RECURSIVE NextBoundary(_)
 NextBoundary(k) == IF k > Len(Trace) THEN k ELSE IF Trace[k].ev \in {"Call", "Config"} THEN k ELSE NextBoundary(k + 1)
 
 \* known finding: a component request body whose schema is an inline object has no JSON methods (Go's default encoding on the wire)
-KF == IF call.has /\ OpOf(call.op).bodyVia = "componentInlineObject" /\ Ev.ev \in {"Wire", "Parse"} THEN "c09-component-body-inline-object" ELSE ""
+\* known findings: a nil Go slice as top-level (inline) array body is written as `null` by the client / by writeJSON
+KF == IF call.has /\ OpOf(call.op).bodyVia = "componentInlineObject" /\ Ev.ev \in {"Wire", "Parse"} THEN "c09-component-body-inline-object"
+      ELSE IF call.has /\ Ev.ev = "Wire" /\ OpOf(call.op).body.k = "json" /\ OpOf(call.op).body.s.k = "array" /\ Ev.body.t = "null" THEN "c09-nil-array-body-null"
+      ELSE IF call.has /\ Ev.ev = "ServerDone" /\ Ev.body.t = "null"
+              /\ \E i \in DOMAIN OpOf(call.op).resps : OpOf(call.op).resps[i].body.k = "json" /\ OpOf(call.op).resps[i].body.s.k = "array" THEN "c02-nil-array-body-null"
+      ELSE ""
 
 Skip == /\ l <= Len(Trace) /\ ~ENABLED Step
         /\ PrintT(ToJson([verdict |-> "REJECT", case |-> cur, at |-> l, event |-> [ev |-> Ev.ev], kf |-> KF,
